@@ -264,6 +264,14 @@ class Unit:
             out = ''.join(pieces)
             if nvis:
                 rules.append('R1x%d' % nvis)
+            if self.vis == 'pub' and it.kind == 'item':
+                lk = rustscan.parse_path(it.path_text)[-1][0]
+                if lk in ('struct', 'enum'):
+                    # R1 (pub mode): the item and every named field become pub
+                    out = re.sub(r'(?m)^([ \t]*)(struct|enum)\b', r'\1pub \2', out, count=1)
+                    if lk == 'struct':
+                        out, nf = re.subn(r'(?m)^([ \t]+)(?!pub\b)([a-z_][A-Za-z0-9_]*[ \t]*:)', r'\1pub \2', out)
+                        rules.append('R1pubx%d' % nf)
         # declared substitutions
         for count, rx, repl in it.subs:
             new, n = re.subn(rx, repl.replace('\\n', '\x01'), out)
